@@ -22,6 +22,8 @@ func C07(c *Ctx) {
 	r.Rule("C07-r", "Rule.NullableVisit is the cycle cut of the nullable pass: a rule that is being visited answers false without descending; otherwise Visited is set before and cleared after the visit of the rule's expression, whose answer is stored in Nullable and returned")
 	r.Rule("C07-e", "error discipline of the detection pipeline: every call in package builder to a function of that package returning an error (PrepareGrammar, ComputeLeftRecursives, findLeader, FindCyclesInSCC) is followed by `if err != nil { return … }` with exactly that condition, so an analysis that gave up never reads as 'no left recursion'")
 	r.Rule("C07-b", "buildParser: `if !b.supportLeftRecursion && haveLeftRecursion { return error wrapping ErrHaveLeftRecursion }` precedes every write; PrepareGrammar = ComputeNullables then ComputeLeftRecursives; MakeFirstGraph stores rule.InitialNames() for every rule; ComputeLeftRecursives marks every member of an SCC of size > 1 and every self-loop and reports haveLeftRecursion for both")
+	r.Rule("C07-h", "direct left recursion is a cycle too: every loop over the components returned by StronglyConnectedComponents that tells components apart by their size also consults the self-loop graph[v][v] of a single-rule component (C08-g under this property)")
+	sccSelfLoops(c, "C07-h")
 
 	g := c.G()
 	if g == nil {
